@@ -31,8 +31,8 @@ var metas = map[string]PropMeta{
 		Assumptions: []string{"strings.EqualFold is the case-insensitive comparison meant by the statement"},
 	},
 	"C04": {
-		Explanation: "PIPE-HOLDERS (value and parent kinds; every *spec.Schema member of the model read from the types), GUARD-PLANNED, SYNC-ENTRY, ENC-REFARG (known finding), ENC-PREFIXSEP, PIPE-ABSJOIN, ENC-FRAGSPLIT, ENC-CONSUMER.",
-		NotDecided:  []string{"that Flatten returns nil on every bundle of W"},
+		Explanation: "PIPE-HOLDERS (value and parent kinds; every *spec.Schema member of the model read from the types), GUARD-PLANNED, SYNC-ENTRY, ENC-REFARG (known finding), ENC-PREFIXSEP, PIPE-ABSJOIN, ENC-FRAGSPLIT, ENC-CONSUMER, PIPE-MODEGUARD (the call sites of one phase test the same mode options).",
+		NotDecided:  []string{"that Flatten returns nil on every bundle of W", "failures that originate in the dependency go-openapi/spec (spec.ExpandSpec on a remote shared response used twice whose schema reaches a recursive definition: witness/clean_tree/dep_expand_aux_response_twice)"},
 		Assumptions: []string{"the kinds of value jsonpointer.Get can return for an analyzer key are *Schema, Schema, *SchemaOrArray, *SchemaOrBool, and the containers of a by-value schema are Definitions, map[string]Schema, []Schema, *SchemaOrArray, SchemaProperties (read from go-openapi/spec)"},
 	},
 	"C06": {
